@@ -20,6 +20,8 @@ EXEC_UNMODELLED = {
     "rusqlite::Connection::open_with_flags", "rusqlite::Connection::open_in_memory", "rusqlite::Connection::open_with_flags_and_vfs",
     "rusqlite::Connection::set_db_config", "rusqlite::Connection::set_transaction_behavior",
 }
+UNMODELLED_NAMES = set(x.rsplit("::", 1)[-1] for x in EXEC_UNMODELLED)
+
 HARMLESS_API = {
     "rusqlite::Connection::open": "opens the database file with rusqlite's defaults (5000 ms busy timeout)",
     "rusqlite::row::Row::<'stmt>::get": "typed column read",
@@ -172,7 +174,28 @@ def sites(W):
                         if s.closure is not None:
                             s.rows = row_reads(W, s.closure)
                 out.append(s)
-            elif d in EXEC_UNMODELLED:
+            elif d.rsplit("::", 1)[-1] in ("pragma_update", "pragma_update_and_check"):
+                # con.pragma_update(schema, "name", value) == PRAGMA name=value : modelled as that statement
+                pv = pv or W.prov(b)
+                args = pv.arg_terms(bb)
+                s = SqlSite(b, bb, d)
+                s.conn = args[0]
+                s.sql_term = args[2] if len(args) > 2 else ("unknown", "pragma name")
+                name = args[2][2] if len(args) > 2 and args[2][0] == "const" and isinstance(args[2][2], str) else None
+                val = None
+                if len(args) > 3:
+                    v = unwrap_param(args[3])
+                    if v[0] == "const" and v[2] is not None:
+                        val = str(v[2])
+                if name is not None and val is not None:
+                    s.texts = ["PRAGMA %s=%s" % (name, val)]
+                    try:
+                        s.stmts.append(SQL.parse(s.texts[0]))
+                    except SQL.SqlError as e:
+                        s.errors.append("%s" % e)
+                s.params = []
+                out.append(s)
+            elif d in EXEC_UNMODELLED or d.rsplit("::", 1)[-1] in UNMODELLED_NAMES:
                 unmodelled.append((b, bb, d))
             elif d in HARMLESS_API:
                 pass
